@@ -1203,6 +1203,12 @@ func (m *Manager) Unlock(ns walletdb.ReadBucket, passphrase []byte) error {
 	// extended keys.
 	for _, manager := range m.scopedManagers {
 		for account, acctInfo := range manager.acctInfo {
+			// Imported watch-only accounts have no private key
+			// that could be decrypted.
+			if len(acctInfo.acctKeyEncrypted) == 0 {
+				continue
+			}
+
 			decrypted, err := m.cryptoKeyPriv.Decrypt(acctInfo.acctKeyEncrypted)
 			if err != nil {
 				m.lock()
@@ -1232,6 +1238,15 @@ func (m *Manager) Unlock(ns walletdb.ReadBucket, passphrase []byte) error {
 			if err != nil {
 				m.lock()
 				return err
+			}
+
+			// Addresses of imported watch-only accounts only ever
+			// have a public key, so there is nothing to derive for
+			// them.
+			if !addressKey.IsPrivate() {
+				manager.deriveOnUnlock[0] = nil
+				manager.deriveOnUnlock = manager.deriveOnUnlock[1:]
+				continue
 			}
 
 			// It's ok to ignore the error here since it can only
